@@ -387,6 +387,7 @@ def judge(case: dict[str, Any], o: dict[str, Any]) -> tuple[list[tuple[str, str]
                 zombie = True
                 phase = "idle"
             att["phase_before"] = "connected" if (zombie and phase == "idle") else phase
+            att["open_conns_at_enter"] = len(open_conns)
             if phase != "idle":
                 out.append(("C18/attempt-while-attempt-in-progress", f"start_connection entered at t={t:.6f} while the manager's previous attempt was {phase}"))
             if stop_ret_seq is not None:
@@ -409,6 +410,9 @@ def judge(case: dict[str, Any], o: dict[str, Any]) -> tuple[list[tuple[str, str]
                 st["attempts_failed"] += 1
                 if refused:
                     st["refused-by-client(already connected)"] += 1
+                    if attempts and attempts[-1].get("open_conns_at_enter") == 0:
+                        # no connection object of this client is open: the due attempt was thrown away (no TCP connect at the due instant)
+                        out.append(("C18/attempt-refused-without-session", f"the attempt due at t={t:.6f} was refused with {e[6]!r} although no connection of the client was open"))
                 if isinstance(e[6], APIConnectionCancelledError):
                     st["restarts(manager-cancelled)"] += 1
                     pending_fail = None
